@@ -174,6 +174,22 @@ def run(ctx):
                            % (" / ".join(l for l in cal.split("\n") if l[:5] in ("DTSTA", "RRULE", "RDATE", "EXDAT")), zone,
                               [common.unhex16(x)[:5] for x in got] if got is not None else g[:80], [common.unhex16(x)[:5] for x in want])))
     ctx.cov["date_valued_exceptions_in_zones"] = len(zops)
+    # a list of exceptions longer than the parser's line (recorded limit, class line-limit): 60 date-times on one folded line
+    d0 = _dt.date(2020, 1, 1)
+    xs = ",".join("%04d%02d%02dT090000Z" % ((d0 + _dt.timedelta(days=i)).timetuple()[:3]) for i in range(60))
+    line = "EXDATE:" + xs
+    folded = "\n ".join(line[i:i + 70] for i in range(0, len(line), 70))
+    cal = "\n".join(["BEGIN:VCALENDAR", "BEGIN:VEVENT", "UID:long", "SUMMARY:x", "DTSTART:20200101T090000Z", "RRULE:FREQ=DAILY;COUNT=63", folded, "END:VEVENT", "END:VCALENDAR", ""])
+    lout, _, _ = ctx.impl(exe, ["p.occ %s 5" % cal.encode().hex()])
+    m_ = re.search(r"occ=([0-9a-f]{16})", lout[0] if lout else "")
+    first = common.unhex16(m_.group(1))[:3] if m_ else None
+    if first != (2020, 3, 1):
+        kn = [k for k in common.load_known("C02") if k.get("status") == "known" and k.get("class") == "line-limit"]
+        ctx.cov["long_exception_line"] = "%d octets: first occurrence %s" % (len(line), first)
+        if kn:
+            ctx.known(kn[0]["what"])
+        else:
+            afails.append(("p.occ", "an EXDATE line of %d octets (60 date-times, folded): the first occurrence is %s, every day of January and February is excepted" % (len(line), first)))
     alg = {}
     for op, why in afails:
         alg[len(alg)] = op
